@@ -21,6 +21,10 @@ pub enum Expectation {
     OkTagAt { path: Vec<PathSeg>, tag: String },
     /// if it deserializes, the re-serialised `__typename` at path equals tag
     IfOkTagAt { path: Vec<PathSeg>, tag: String },
+    /// conforming payload: a known `__typename` selects its own variant - if it deserialises, the
+    /// re-serialised tag at every listed abstract position is the payload's; an error that names an
+    /// unknown variant is a failure, other errors are not this expectation's business
+    KnownTags { tags: Vec<(Vec<PathSeg>, String)> },
     /// enum vector: Ok({"ser": s, "dbg": ..})
     EnumRoundTrip { s: String, is_schema_value: bool },
     Any,
@@ -107,6 +111,23 @@ pub fn evaluate(e: &Expectation, r: &VecResult) -> Option<String> {
             }
             VecResult::Err(_) => None,
             other => Some(show(other)),
+        },
+        Expectation::KnownTags { tags } => match r {
+            VecResult::Ok(v) => {
+                for (path, tag) in tags {
+                    let mut p = path.clone();
+                    p.push(PathSeg::Key("__typename".into()));
+                    match get_at(v, &p) {
+                        Some(Value::String(s)) if s == tag => {}
+                        // a parent that is null / absent in the observation is another expectation's business
+                        None => {}
+                        other => return Some(format!("known __typename {:?} at {:?} did not select its own variant: the re-serialised tag is {:?}", tag, path, other)),
+                    }
+                }
+                None
+            }
+            VecResult::Err(e) if e.contains("unknown variant") => Some(format!("a conforming payload whose __typename values are all possible types of their positions fails with: {}", e).chars().take(700).collect()),
+            _ => None,
         },
         Expectation::EnumRoundTrip { s, is_schema_value } => match r {
             VecResult::Ok(v) if v["ser"] == Value::String(s.clone()) => {
